@@ -2676,18 +2676,34 @@ impl Compiler {
     ) -> Result<(), JsError> {
         self.builder.set_span(decl.span);
 
-        // Create the enum object
         let enum_obj = self.builder.alloc_register()?;
-        self.builder.emit(Op::CreateObject { dst: enum_obj });
-
-        // Declare the enum variable FIRST so member initializers can reference prior members
-        // via EnumName.MemberName or just MemberName (for const enums)
         let enum_name_idx = self.builder.add_string(decl.id.name.cheap_clone())?;
-        self.builder.emit(Op::DeclareVar {
-            name: enum_name_idx,
-            init: enum_obj,
-            mutable: true, // Enums are mutable like objects
-        });
+
+        // A repeated `enum E { .. }` in the same scope adds its members to the existing object
+        // (declaration merging); otherwise create the enum object.
+        let scope_depth = self.scope_depth;
+        let merges = self
+            .declared_enums
+            .iter()
+            .any(|(name, depth)| *depth == scope_depth && name.as_str() == decl.id.name.as_str());
+        if merges {
+            self.builder.emit(Op::GetVar {
+                dst: enum_obj,
+                name: enum_name_idx,
+            });
+        } else {
+            self.builder.emit(Op::CreateObject { dst: enum_obj });
+
+            // Declare the enum variable FIRST so member initializers can reference prior members
+            // via EnumName.MemberName or just MemberName (for const enums)
+            self.builder.emit(Op::DeclareVar {
+                name: enum_name_idx,
+                init: enum_obj,
+                mutable: true, // Enums are mutable like objects
+            });
+            self.declared_enums
+                .push((decl.id.name.cheap_clone(), scope_depth));
+        }
 
         // Auto-increment: a member without an initializer is the previous member's value + 1
         // (0 for the first member). The previous value is still in `value_reg`, so this also
